@@ -149,7 +149,7 @@ fn check_tagged_input_ex(ctx: &mut Ctx, ty: Ty, head_tag: Option<u64>, single: b
         (Err(_), false) => ctx.count("tagged-rejected"),
     }
     // untagged decoding rejects every tagged item
-    if head_tag.is_some() {
+    if head_tag.is_some() || x.first().map(|b| b >> 5 == 6).unwrap_or(false) {
         ctx.eval();
         for t in MSG_TYPES {
             if let Ok(_) = capi::from_slice(t, x) {
@@ -212,6 +212,8 @@ impl Check for C14 {
                         ("T(w(bstr(body)))", rcbor::det(&Item::Tag(t, Box::new(wrapped_bstr.clone()))), Some(t)),
                         ("w(T(body))", rcbor::det(&Item::Tag(w, Box::new(Item::Tag(t, Box::new(body_item.clone()))))), Some(w)),
                         ("T(bstr(body))", rcbor::det(&Item::Tag(t, Box::new(Item::Bytes(body.clone())))), Some(t)),
+                        ("w(bstr(T(body)))", rcbor::det(&Item::Tag(w, Box::new(Item::Bytes(rcbor::det(&Item::Tag(t, Box::new(body_item.clone()))))))), Some(w)),
+                        ("T(bstr(T(body)))", rcbor::det(&Item::Tag(t, Box::new(Item::Bytes(rcbor::det(&Item::Tag(t, Box::new(body_item.clone()))))))), Some(t)),
                     ] {
                         ctx.nontrivial_bytes(&x);
                         ctx.count(&format!("wrapper-form:{}", what));
